@@ -130,11 +130,12 @@ class _HookDict(dict):
         return v
 
 
-def _make_node(rx=(), tx=(), tx_types=None, rx_timer=None):
+def _make_node(rx=(), tx=(), tx_types=None, rx_timer=None, rx_off=()):
     """rx / tx: object indices carried by RPDO / TPDO (one PDO each; a tuple = several objects in that PDO);
     tx_types: transmission type of each TPDO (default 255, event driven); rx_timer = (transmission type, event
     timer in ms) of the RPDOs (for an RPDO the event timer is the drive's deadline monitoring; the master stays
-    the producer and no periodic transmission is started); everything else goes by SDO.
+    the producer and no periodic transmission is started); rx_off = positions in rx whose RPDO is configured but
+    disabled (COB-ID bit 31 set: the drive does not consume it, the object must go by SDO); everything else goes by SDO.
     Returns (node, net, sdo_handlers) where sdo_handlers maps index -> (read, write)."""
     canopen, p402, od, Net = _lib()
     p402.time.t, p402.time.step = 0.0, 0.0005
@@ -159,7 +160,7 @@ def _make_node(rx=(), tx=(), tx_types=None, rx_timer=None):
     for k, idx in enumerate(rx):
         m = node.rpdo[k + 1]
         m.clear(); m.add_variable(idx)
-        m.cob_id = 0x200 + 0x100 * k + NODE_ID; m.enabled = True; m.trans_type = 255
+        m.cob_id = 0x200 + 0x100 * k + NODE_ID; m.enabled = k not in rx_off; m.trans_type = 255
         if rx_timer:
             m.trans_type, m.event_timer = rx_timer
     for k, idx in enumerate(tx):
@@ -227,13 +228,18 @@ def run_decode(c):
 
 def run_set(c):
     cw_pdo, sw_pdo = c["cw"] == "pdo", c["sw"] == "pdo"
+    # cw = "pdo_off": an RPDO maps the controlword but is disabled, the drive consumes the controlword by SDO only
+    # (added after seeded change C19-r6-2: disabled RPDOs registered as controlword carriers)
+    cw_off = c["cw"] == "pdo_off"
+    rx = (0x6040,) if cw_pdo or cw_off else ()
+    off = (0,) if cw_off else ()
     multi = c.get("tpdo") if sw_pdo else None
     rxt = tuple(c["rx_timer"]) if c.get("rx_timer") else None
     if multi is None:
-        node, net, sdo = _make_node(rx=(0x6040,) if cw_pdo else (), tx=(0x6041,) if sw_pdo else (), rx_timer=rxt)
+        node, net, sdo = _make_node(rx=rx, tx=(0x6041,) if sw_pdo else (), rx_timer=rxt, rx_off=off)
     else:
         tx, types, sender = _multi_layout(0x6041, 1, multi)
-        node, net, sdo = _make_node(rx=(0x6040,) if cw_pdo else (), tx=tx, tx_types=types, rx_timer=rxt)
+        node, net, sdo = _make_node(rx=rx, tx=tx, tx_types=types, rx_timer=rxt, rx_off=off)
     if c.get("lat"):
         # drive needing lat[0] ms per commanded transition; the clock of p402.py advances lat[1] ms per look
         clock = _lib()[1].time
@@ -479,6 +485,13 @@ def gen_cases(rng, tier):
                     for extra in (EXTRAS[:4] if tier == "thorough" else
                                   [EXTRAS[0], rng.choice(EXTRAS[1:])] if len(sched) <= 1 else [rng.choice(EXTRAS)]):
                         cases.append(dict(kind="set", cw=cw, sw=sw, start=start, target=tgt, sched=list(sched), extra=extra))
+    # controlword RPDO configured but disabled: the library must fall back to SDO (same expectations as cw = "sdo")
+    for start in range(8):
+        for tgt in targets:
+            for sw in ("sdo", "pdo"):
+                for sched in (base_scheds if tier != "quick" else base_scheds[:3]):
+                    cases.append(dict(kind="set", cw="pdo_off", sw=sw, start=start, target=tgt, sched=list(sched),
+                                      extra=rng.choice(EXTRAS)))
     depth = {"quick": 5, "thorough": 7, "search": 6}[tier]
     for start in (R.NR, R.FRA):
         for tgt in R.NAMES + PSEUDO_TARGETS[:1]:
